@@ -19,19 +19,27 @@ class FakeFile:
     store = {}
     opened = []
 
-    def __init__(self, name, mode="r"):
+    def __init__(self, name, mode="r", encoding=None, **kw):
         self.name, self.mode, self.buf = name, mode, []
+        self.encoding = encoding
         FakeFile.opened.append((name, mode))
 
     def write(self, s):
         self.buf.append(s)
 
     def read(self):
-        return FakeFile.store[self.name]
+        text = FakeFile.store[self.name]
+        if self.encoding and self.encoding.lower().replace("-", "") not in ("utf8",):
+            # the stored text is what a UTF-8 file on disk contains: reading it with another codec mangles non-ASCII
+            text = text.encode("utf-8").decode(self.encoding, errors="replace")
+        return text
 
     def close(self):
         if "w" in self.mode:
-            FakeFile.store[self.name] = "".join(self.buf)
+            text = "".join(self.buf)
+            if self.encoding and self.encoding.lower().replace("-", "") not in ("utf8",):
+                text = text.encode(self.encoding, errors="replace").decode("utf-8", errors="replace")
+            FakeFile.store[self.name] = text
 
     def __enter__(self):
         return self
@@ -71,6 +79,14 @@ def _menu(sp, k, tag):
         d = build("fig55", [0.5, 0.75]).description(sp, prefix=tag + "r", nsym=0)
         d["transition_list"][3] = {9: [(0.5, 6, 0), (0.5, 7)], 10: [("0.5", 6), (0.5, 7)], 11: [(0.5,), (0.5, 7)]}[k]
         return d, "bad"
+    if k == 12:     # the per-state container is a tuple of pairs instead of a list
+        d = build("fig55", [0.5, 0.75]).description(sp, prefix=tag + "r", nsym=0)
+        d["transition_list"][4] = tuple(d["transition_list"][4])
+        return d, "bad"
+    if k == 13:
+        return build("all_live_orphan", []).description(sp, prefix=tag + "r", nsym=0), "ok"
+    if k in (14, 15):
+        return build("p2_shared", ["a" if k == 14 else "b"]).description(sp, prefix=tag + "r", nsym=0), "ok"
     if k in (7, 8):  # same size, finals and successor sequence, different grouping
         return build("regroup", ["x" if k == 7 else "z"]).description(sp, prefix=tag + "r", nsym=0), "ok"
     d = build("p2choice", [[0, 1, 2], P1]).description(sp, prefix=tag + "r", nsym=0)
@@ -96,7 +112,7 @@ def _batch_jobs(tier, seed):
         jobs.append(dict(picks=list(t), _cost=4))
     jobs.append(dict(picks=[0], _cost=1))
     jobs.append(dict(picks=[4], _cost=1))
-    for extra in ([6], [6, 0], [0, 6, 1], [7, 8], [8, 7], [7, 3, 8], [9], [0, 9, 1], [10, 0], [1, 11]):
+    for extra in ([6], [6, 0], [0, 6, 1], [7, 8], [8, 7], [7, 3, 8], [9], [0, 9, 1], [10, 0], [1, 11], [12], [0, 12], [13], [13, 0], [14, 15], [15, 14], [14, 3, 15]):
         jobs.append(dict(picks=extra, _cost=2))
     return jobs
 
@@ -107,6 +123,7 @@ def _alone(sp, desc, prune):
     rd = repo.load("reverse_dfs", alias="reverse_dfs_ref")
     t = repo.load("tad", overrides=dict(PROXY_BUILTINS, max=sym_max, min=sym_min), imports={"reverse_dfs": rd}, alias="tad_ref")
     t.logging = LoggingStub()
+    with_math(t)
     t.logging.reset(400)
     try:
         return "ok", t.StochasticGame(prune_states=prune, **copy.deepcopy(desc)).solve()
@@ -119,7 +136,7 @@ def _alone(sp, desc, prune):
 @harness("batch.run_games", props=["C12", "C09"], jobs=_batch_jobs,
          covers=["fail_first", "fail_middle", "fail_last", "all_ok", "nosol", "malformed"],
          stubs=["logging (tad) -> sweep counter", "time.time native (total_time not compared)"],
-         bounds="dictionaries of 1-3 games drawn from a menu of 12 (three solvable templates with symbolic rewards, a no-solution "
+         bounds="dictionaries of 1-3 games drawn from a menu of 16 (solvable templates with symbolic rewards, a no-solution "
                 "game, two malformed games with a symbolic bad value) in every order (quick: all pairs with a failing game, 15 triples)",
          desc="real run_games: one pruned and one unpruned entry per game, in run order, whose strategies, rewards, probabilities, "
               "diagnostics and counts equal those of the game solved alone; a failing pruned solve yields the error message, its "
@@ -250,6 +267,10 @@ def report_save(sp, nentries, path):
     results = {}
     for n in names:
         results[n] = {k: Token(k) for k in KEYS}
+    # an earlier, longer report written in the same process must leave no trace in this one
+    earlier = {n: {k: Token(k) for k in KEYS} for n in ("old_1", "old_1_no_prune", "old_2", "old_2_no_prune")}
+    cr.save_results_to_file(earlier, PATHS[path][0])
+    FakeFile.opened = []
     cr.save_results_to_file(results, PATHS[path][0])
     exp_name = "outputs/%s.txt" % PATHS[path][1]
     sp.prove(FakeFile.opened == [(exp_name, "w")], "files opened: %s, expected %s" % (FakeFile.opened, exp_name))
@@ -350,12 +371,13 @@ def report_main(sp, save, path):
         sp.prove(len(calls) == 1, "results saved although -s was not given")
 
 
-@harness("report.reader", props=["C16", "C11"], jobs=lambda tier, seed: [dict(k=k) for k in range(8)],
+@harness("report.reader", props=["C16", "C11"], jobs=lambda tier, seed: [dict(k=k) for k in range(9)],
          stubs=["open -> in-memory file"], bounds="menu of 8 file contents (dicts and non-dicts)",
          desc="real read_dict_from_file: returns the dictionary the text denotes; any other content raises ValueError")
 def report_reader(sp, k):
     cr = cr_mod()
     menu = [("{}", {}), ("# c\n{'a': [1, (0.5, 2)], 'b': None}\n", {"a": [1, (0.5, 2)], "b": None}), ("{'x': {'y': 1}}", {"x": {"y": 1}}),
+            ("{'juego_se\u00f1al_1': {'players': ['\u03b1', '\u03b2']}}", {"juego_se\u00f1al_1": {"players": ["\u03b1", "\u03b2"]}}),
             ("[1, 2]", ValueError), ("3", ValueError), ("'s'", ValueError), ("None", ValueError), ("{1, 2}", ValueError)]
     text, exp = menu[k]
     FakeFile.store, FakeFile.opened = {"f.py": text}, []
